@@ -235,6 +235,11 @@ enum Fail {
   Downgrade,
   LocalImport,
   TypeAssertion,
+  /// policy edges whose target is a redirect source ending on another scheme: the policy is about the
+  /// imported specifier, not about where the loader ends up
+  DowngradeRedirectedBack,
+  HttpsRedirectedToHttp,
+  LocalImportRedirectedToRemote,
 }
 
 fn placement_world(
@@ -270,6 +275,9 @@ fn placement_world(
     Fail::ResolverError => "will-fail".into(),
     Fail::Downgrade => "http://h.test/down.ts".into(),
     Fail::LocalImport => "file:///local.ts".into(),
+    Fail::DowngradeRedirectedBack => "http://h.test/back.ts".into(),
+    Fail::HttpsRedirectedToHttp => format!("{}tohttp.ts", base),
+    Fail::LocalImportRedirectedToRemote => "file:///moved.ts".into(),
     _ => {
       if hops > 0 {
         format!("{}hop0.ts", base)
@@ -389,6 +397,22 @@ fn placement_world(
       serve: Serve::Module,
     },
   ];
+  for (from, to) in [
+    ("http://h.test/back.ts".to_string(), format!("{}ok.ts", base)),
+    (format!("{}tohttp.ts", base), "http://h.test/down.ts".to_string()),
+    ("file:///moved.ts".to_string(), format!("{}ok.ts", base)),
+  ] {
+    modules.push(GModule {
+      url: from,
+      media: Media::Ts,
+      via_header: false,
+      items: vec![],
+      x_ts_types: None,
+      source_map: None,
+      broken: false,
+      serve: Serve::Redirect(to),
+    });
+  }
   for h in 0..hops {
     let to = if h + 1 == hops {
       format!("{}target.ts", base)
@@ -661,6 +685,9 @@ pub fn run_c02(tier: Tier, seed: u64) -> i32 {
     Fail::Downgrade,
     Fail::LocalImport,
     Fail::TypeAssertion,
+    Fail::DowngradeRedirectedBack,
+    Fail::HttpsRedirectedToHttp,
+    Fail::LocalImportRedirectedToRemote,
   ];
   let mut placements: Vec<(GWorld, Value)> = vec![];
   for &e1 in &edges {
@@ -670,7 +697,13 @@ pub fn run_c02(tier: Tier, seed: u64) -> i32 {
           if hops > 0
             && matches!(
               f,
-              Fail::BareSpecifier | Fail::ResolverError | Fail::Downgrade | Fail::LocalImport
+              Fail::BareSpecifier
+                | Fail::ResolverError
+                | Fail::Downgrade
+                | Fail::LocalImport
+                | Fail::DowngradeRedirectedBack
+                | Fail::HttpsRedirectedToHttp
+                | Fail::LocalImportRedirectedToRemote
             )
           {
             continue;
